@@ -290,8 +290,8 @@ fn conv_item(i: &syn::Item) -> Value {
         }
         Struct(s) => {
             let fields: Vec<Value> = match &s.fields {
-                syn::Fields::Named(n) => n.named.iter().map(|f| json!({"name":f.ident.as_ref().unwrap().to_string(),"ty":ts(&f.ty)})).collect(),
-                syn::Fields::Unnamed(u) => u.unnamed.iter().enumerate().map(|(k, f)| json!({"name":k.to_string(),"ty":ts(&f.ty)})).collect(),
+                syn::Fields::Named(n) => n.named.iter().map(|f| json!({"name":f.ident.as_ref().unwrap().to_string(),"ty":ts(&f.ty),"attrs":attrs_text(&f.attrs)})).collect(),
+                syn::Fields::Unnamed(u) => u.unnamed.iter().enumerate().map(|(k, f)| json!({"name":k.to_string(),"ty":ts(&f.ty),"attrs":attrs_text(&f.attrs)})).collect(),
                 syn::Fields::Unit => vec![],
             };
             json!({"k":"struct_def","name":s.ident.to_string(),"fields":fields,"attrs":attrs_text(&s.attrs),"ln":ln(s.span())})
@@ -402,7 +402,8 @@ fn main() {
         "parse" => {
             println!("{}", conv_file(&file));
         }
-        "expand" => {
+        "expand" | "expand-serde" => {
+            let want_serde = args[1] == "expand-serde";
             let name = &args[3];
             let mut map = HashMap::new();
             for kv in &args[4..] {
@@ -416,7 +417,7 @@ fn main() {
                 .iter()
                 .find(|m| {
                     let a = attrs_text(&m.attrs).join(" ");
-                    !a.contains("cfg (feature = \"serde\")")
+                    a.contains("cfg (feature = \"serde\")") == want_serde
                 })
                 .or(found.first());
             let m = match pick {
